@@ -177,7 +177,7 @@ func c07(c *q.Ctx) {
 		c.Guard(vu, q.Cond{Canon: "(1 == utils.IsAccount(p1.TxInputs[].FromAddr))", Sense: false}, q.ToSuccess(), q.Opt{})
 		// an input is waved through only when its owner was verified, or it is listed as a contract-originated input
 		keep := func(g q.Cond) bool { return !strings.Contains(g.Canon, "len(") }
-		c.Effect(vu, q.Eff{Spec: "utils::IsAccount", Arg: 0, Glob: "p1.TxInputs[].FromAddr", Req: []q.Cond{{Canon: "p2[p1.TxInputs[].FromAddr]", Sense: false}, {Canon: "newmap<map[string]bool>[utxo.GenUtxoKey(*p1.TxInputs[]*)]", Sense: false}, {Canon: "(nil == xmodel.ParseContractUtxoInputs(p1)#1)", Sense: true}}, Exact: true, Keep: keep, Why: "every input whose owner is neither a verified identity nor contract-justified is classified and checked", Rule: "K2"})
+		c.Effect(vu, q.Eff{Spec: "utils::IsAccount", Arg: 0, Glob: "p1.TxInputs[].FromAddr", Req: []q.Cond{{Canon: "p2[p1.TxInputs[].FromAddr]", Sense: false}, {Canon: "has(newmap<map[string]bool>,utxo.GenUtxoKey(*p1.TxInputs[]*))", Sense: false}, {Canon: "(nil == xmodel.ParseContractUtxoInputs(p1)#1)", Sense: true}}, Exact: true, Keep: keep, Why: "every input whose owner is neither a verified identity nor contract-justified is classified and checked", Rule: "K2"})
 	}
 	vm := c.Fn(st + "(*State).verifyMarkedTx")
 	if vm != nil {
